@@ -29,9 +29,27 @@ void MathMLPrinter::bvisit(const Basic &x)
     throw SymEngineException("Error: not supported");
 }
 
+// character data: the markup characters of a name must be escaped
+static std::string mathml_escape(const std::string &name)
+{
+    std::string o;
+    for (char c : name) {
+        if (c == '&') {
+            o += "&amp;";
+        } else if (c == '<') {
+            o += "&lt;";
+        } else if (c == '>') {
+            o += "&gt;";
+        } else {
+            o += c;
+        }
+    }
+    return o;
+}
+
 void MathMLPrinter::bvisit(const Symbol &x)
 {
-    s << "<ci>" << x.get_name() << "</ci>";
+    s << "<ci>" << mathml_escape(x.get_name()) << "</ci>";
 }
 
 void MathMLPrinter::bvisit(const Integer &x)
@@ -293,7 +311,7 @@ void MathMLPrinter::bvisit(const UnevaluatedExpr &x)
 
 void MathMLPrinter::bvisit(const FunctionSymbol &x)
 {
-    s << "<apply><ci>" << x.get_name() << "</ci>";
+    s << "<apply><ci>" << mathml_escape(x.get_name()) << "</ci>";
     const auto &args = x.get_args();
     for (const auto &arg : args) {
         arg->accept(*this);
